@@ -13,6 +13,7 @@ CONSTANTS
   Trials = 2
   Fix = {"repin_sole"}
   Mut = {}
+  Loop = {}
 INVARIANTS TypeOK C13 EpochBound Once
 PROPERTIES Mono
 CHECK_DEADLOCK FALSE
